@@ -6,10 +6,17 @@ Op lines (stateful; harness = real alpaqa code, driver = Lean model):
   R                       fresh CSVReader<double>
   skip | read <sep> | nl | done          the reader's member functions
   row <n> <sep> | rowv <sep>             alpaqa::csv::read_row / read_row_std_vector<double>
-  resync                  is.clear(); is.ignore(max, '\\n')   (what a caller does after a read_error)
+  resync / resyncerr      is.clear(); is.ignore(max, '\\n')   (what a caller has to do after a read_error
+                          as long as the row functions leave the stream inside the rejected line)
   pcsv <fmt> r c <sep> bits… toks…       print_csv / print_python / print_matlab framing
   rt <sep> r c bits… toks…               print_csv then read every row back with both readers
   rtf / rtl (harness only)               float / long double round trip
+  rowT <d|f|l|i> n sep text calls (harness only)   outcome signature of consecutive row calls per scalar type
+
+Monitor, malformed rows: every listed class must be rejected (never numbers), and the rejected call must
+leave the stream at the start of the next line with failbit clear ("no partial consumption that corrupts
+the next row"): the op after a rejected row is judged against the *next line of the text*.  A single
+trailing separator is the library's (unit-tested) terminated form of a row, not an empty field.
 """
 import math
 import os
@@ -341,6 +348,9 @@ def gen_ops(rng, n):
     for _ in range(n // 10):
         seqs.append(seq_rt(rng))
     rng.shuffle(seqs)
+    # half of the sequences without the caller-side resync: the call after a rejected row is then judged
+    # against the next line of the text (property: a rejected row leaves no partial consumption)
+    seqs = [[o for o in q if o != 'resync?'] if rng.random() < 0.5 else q for q in seqs]
     # corpus first: the DESIGN §7-B reproduction and the unit-test shapes
     tok70 = '0.' + '0' * 62 + '125777'
     head = [['S ' + hx(tok70 + '\n1,2\n'), 'rowv 2c', 'resync?', 'rowv 2c'],
@@ -350,7 +360,56 @@ def gen_ops(rng, n):
             ['S ' + hx('# c\n' + '#' + 'x' * 300 + '\n1,+2,-3\nfoobar'), 'row 3 2c', 'resync?', 'rowv 2c'],
             ['S -', 'rowv 2c', 'row 0 2c', 'row 1 2c'],
             ['S ' + hx('\n\n1\n'), 'rowv 2c', 'row 0 2c', 'row 1 2c']]
+    head += corpus_empty_fields() + corpus_after_error()
     return [o for s in head + seqs for o in s]
+
+
+def corpus_empty_fields():
+    """Audit F5 (a): trailing separator and its relatives, every separator, both readers, n below / at /
+    above the field count; each followed by reads of the next rows *without* resync."""
+    out = []
+    for sp in SEPS:
+        h = hx(sp)
+        nxt = f'7{sp}8\n9\n'
+        for line, k in ((f'1{sp}2{sp}', 2),            # terminated row: accepted (unit-tested grammar)
+                        (f'1{sp}2{sp}{sp}', 3),         # empty field at the end
+                        (f'{sp}1{sp}2', 3),             # … at the front
+                        (f'1{sp}{sp}2', 3),             # … in the middle
+                        (f'{sp}', 1), (f'{sp}{sp}', 2), (f'1{sp}{sp}', 2)):
+            for first in ([f'rowv {h}'] + [f'row {n} {h}' for n in sorted({max(0, k - 1), k, k + 1})]):
+                out.append(['S ' + hx(line + '\n' + nxt), first, f'row 2 {h}', f'rowv {h}'])
+        out.append(['S ' + hx(f'1{sp}2{sp}'), f'row 2 {h}'])                   # terminated row at EOF
+        out.append(['S ' + hx(f'1{sp}2{sp}'), f'rowv {h}', f'rowv {h}'])
+        out.append(['S ' + hx(f'1{sp}2{sp}{sp}'), f'rowv {h}', f'rowv {h}'])
+    return out
+
+
+def corpus_after_error():
+    """Audit F5 (b): one sequence per rejection cause (and per reader), the next rows read without resync;
+    short lines (whole line in the window) and lines longer than the window."""
+    out = []
+    long_ok = ','.join(str(i) for i in range(10, 40))          # 89 characters
+    causes = [('1' * 64 + '2', 1),                             # over-long token (65 digits)
+              ('1,' + '1' * 70 + ',3', 3),
+              ('1,2x,3', 3), ('1,k2,3', 3),                     # invalid character
+              ('1,2,3,4', 3),                                   # too many
+              ('1,2', 3),                                       # too few
+              ('1;2;3', 3),                                     # wrong separator
+              ('', 2),                                          # empty line where data are expected
+              ('1,,3', 3),                                      # empty field
+              (long_ok + ',x', 31), (long_ok + ';5', 31), (long_ok, 29), (long_ok, 31)]
+    for line, n in causes:
+        for pre in ('', '# c\n'):
+            text = pre + line + '\n4,5\n6\n'
+            out.append(['S ' + hx(text), f'row {n} 2c', 'row 2 2c', 'row 1 2c', 'rowv 2c'])
+            out.append(['S ' + hx(text), 'rowv 2c', 'rowv 2c', 'rowv 2c', 'rowv 2c'])
+            out.append(['S ' + hx(text), f'row {n} 2c', 'rowv 2c', 'row 1 2c'])
+        out.append(['S ' + hx(line), f'row {n} 2c', 'row 0 2c', 'rowv 2c'])      # … at the end of the file
+        out.append(['S ' + hx(line), 'rowv 2c', 'rowv 2c'])
+    # two rejected rows in a row, then a good one
+    out.append(['S ' + hx('1,x\n2,y\n3,4\n'), 'row 2 2c', 'row 2 2c', 'row 2 2c'])
+    out.append(['S ' + hx('1,x\n2,y\n3,4\n'), 'rowv 2c', 'rowv 2c', 'rowv 2c'])
+    return out
 
 
 # `resync?` in the sequences above becomes the op `resyncerr`: "if the previous row op threw, do what
@@ -364,9 +423,20 @@ def parse_state(seg):
     return int(m.group(1)), m.group(2) == '1', m.group(3) == '1'
 
 
-def judge_row(op, res, st):
-    """The property restated on one row read from a clean line start."""
-    text, pos = st['text'], st['pos']
+MIDLINE = 'csv-error-leaves-stream-mid-line'
+
+
+def next_line_start(text, pos):
+    """Start of the line after the (non-comment) line the row call at `pos` is about."""
+    _, _, le, has_nl = current_line(text, pos)
+    return le + 1 if has_nl else len(text)
+
+
+def judge_row(op, res, st, pos=None):
+    """The property restated on one row read from a clean line start (`pos`: where the property says the
+    stream is — the start of the line after a rejected row — when that differs from where it really is)."""
+    text = st['text']
+    pos = st['pos'] if pos is None else pos
     parts = op.split()
     vec = parts[0] == 'rowv'
     sep = unhx(parts[-1])
@@ -385,8 +455,16 @@ def judge_row(op, res, st):
     if not ok:
         if seg[0] in ('E_other', 'E_read'):
             return f'{here}: not a csv read_error: {seg[0]}'
-        if p2 > le:
+        if p2 > (le + 1 if has_nl else len(text)):
             return f'{here}: rejected, but the stream was consumed past the end of that line (pos {p2} > {le})'
+    finding = None
+    if not ok:
+        want = le + 1 if has_nl else len(text)
+        if p2 != want or f2:
+            where = 'inside the rejected line' if p2 <= le else 'elsewhere'
+            finding = (f'{here}: rejected with {seg[0]}, but the stream is left {where} (pos {p2}, failbit '
+                       f'{int(f2)}; the next row starts at {want}): the next read_row call does not read '
+                       f'the next row', MIDLINE)
     maxlen = max([len(f) for f in fields] + [0])
     vals = seg[0].split()[2:] if ok else None
     if ok and maxlen > WINDOW:
@@ -409,12 +487,12 @@ def judge_row(op, res, st):
             want = le + 1 if has_nl else len(text)
             if p2 != want:
                 return f'{here}: accepted, but the stream is at {p2}, next line starts at {want}'
-        return None
+        return finding
     # malformed (bad token / empty field / wrong count / over-long)
     if ok:
         why = 'field count' if gram else 'bad token / empty field / wrong separator'
         return f'{here}: malformed ({why}) but returned numbers {vals[:6]}'
-    return None
+    return finding
 
 
 def monitor(op, out, st):
@@ -431,22 +509,36 @@ def monitor(op, out, st):
     if k in ('row', 'rowv'):
         seg = out.split(' | ')
         r = None
+        judged_from = None
         if st.get('clean') and not st['flags'][1] and not st['flags'][0]:
+            judged_from = st['pos']
             r = judge_row(op, out, st)
+        elif st.get('expect') is not None:
+            # the previous row call was rejected and nothing happened in between: the property puts
+            # the stream at the start of the following line, the call is judged against that line
+            judged_from = st['expect']
+            r = judge_row(op, out, st, pos=judged_from)
+            if r is not None:
+                msg = r[0] if isinstance(r, tuple) else r
+                r = ('after a rejected row, the next call: ' + msg, MIDLINE)
         p2, e2, f2 = parse_state(seg[-1])
-        st['clean'] = seg[0].startswith('ok')
+        okk = seg[0].startswith('ok')
+        st['clean'] = okk
         st['pos'], st['flags'] = p2, (e2, f2)
-        st['lasterr'] = not seg[0].startswith('ok')
+        st['lasterr'] = not okk
+        st['expect'] = next_line_start(st['text'], judged_from) if (not okk and judged_from is not None) else None
         return r
     if k == 'resyncerr':
         seg = out.split(' | ')
         p2, e2, f2 = parse_state(seg[-1])
         if seg[0] == 'ok':          # resync performed
             st['clean'] = True
+            st['expect'] = None
         st['pos'], st['flags'] = p2, (e2, f2)
         return None
-    if k in ('skip', 'read', 'nl', 'done', 'R'):
+    if k in ('skip', 'read', 'nl', 'done', 'R', 'resync'):
         st['clean'] = False
+        st['expect'] = None
         return None
     if k == 'rt':
         parts = op.split()
@@ -565,6 +657,7 @@ if __name__ == '__main__':
         'C17', sys.argv,
         gen_scripts=['gen_c17.py'], modules=['Alpaqa.Props.C17'], driver='drv_c17',
         extra_sources=['Alpaqa/Model/C17.lean', 'Alpaqa/Gen/C17.lean', 'Alpaqa/Proofs/C17.lean',
+                       'Alpaqa/Proofs/C17Row.lean',
                        'Driver/C17.lean'],
         harness_name='c17', harness_sources=[os.path.join(C.VERIF, 'harness', 'c17.cpp')],
         gen_ops=gen_ops_final, monitor=monitor, nontrivial=nontrivial, extra_stage=extra_stage,
